@@ -13,7 +13,12 @@ three features of the feature list in rotation so that all appear) plus a fixed 
 associativity probes.  Each model is evaluated at its default point and at random / special (integer, negative,
 zero) points where the independent reference evaluator (own parser, Python floats) is finite and not within
 1e-9 of a discontinuity.  One case = one (model, point) comparison of the whole rhs vector against the reference
-(rtol 1e-9 plus 1e-13 x the largest cancelled operand).  A case is non-trivial when the model has an
+(rtol 1e-9 plus atol 1e-12 x (1 + the largest operand of an addition / subtraction / Mod / trigonometric function)); points where the
+reference leaves the real domain (acos/asin of |x| > 1, log/sqrt of negatives, fractional powers of negatives, division by zero) or sits on
+its edge are skipped.  General models never have `pi` inside the argument of sin/cos/tan: the known sympy problem "an evaluating
+trigonometric function applied to an unevaluated sum containing pi drops terms" is exercised only by the dedicated probe list PI_TRIG_PROBES
+and every mismatch of a model with pi inside a trigonometric argument is reported as C01:rhs-mismatch:trig-of-unevaluated-sum-with-pi.  A
+fraction of the models has intermediates that mention a d<state>_dt name.  A case is non-trivial when the model has an
 intermediate or an expression of nesting depth >= 2 and the reference rhs is not identically zero; cases are
 distinct by sha1(model text, point)."""
 
@@ -31,6 +36,12 @@ PROBES = [
     "exp(-x)*log(y) + ln(y)", "sqrt(y) + sin(x)*cos(y) - tan(0.3*x)", "asin(0.3*x) + acos(0.2*y) - atan(x*y)",
     "Conditional(Lt(x, 1), Conditional(Gt(y, 3), 1, 2), Conditional(Le(y, 2), 3, 4))", "Gt(x, 1)*Lt(y, 3)*5",
     "1e300*x*1e-300", "x*1e-300*1e300", "3.0e0 - x", "x - 1 + 1", "(x + 1e-3) - 1e-3",
+    "cos(acos(0.0*x))", "cos(acos(x - x))", "sin(asin(y - 2*x + 1))", "cos(x)**2 + sin(x)**2 - 1", "acos(2*x)", "log(-y)", "sqrt(1 - y)", "(-y)**0.5", "asin(x - 0.5)",
+]
+# dedicated probes of the KNOWN sympy problem (pi inside a trigonometric argument); signature C01:rhs-mismatch:trig-of-unevaluated-sum-with-pi
+PI_TRIG_PROBES = [
+    "cos(2 - pi + 2)", "cos(2 - pi + a)", "sin(x + pi + y)", "sin(w0 + pi + y)", "cos((x + pi) + y)", "cos(x + (pi + y))", "cos(pi/2 + x + y)", "tan(x + pi + y)",
+    "cos(x - pi + y)*2", "sin(x + y + 2*pi)", "cos(pi - x - y)", "cos(x*y + pi)", "cos(pi*x)", "sin(2*pi*t)", "tan(x + pi)", "cos(x - pi)", "sin(pi + x)", "cos(x + 3.14 + y)",
 ]
 
 
@@ -40,16 +51,17 @@ USES_SHRINK = True
 def cases(tier, seed, focus):
     n = 420 if tier == "quick" else 6000
     yield {"probe": True, "tags": ["C01:rhs-mismatch"]}
+    yield {"probe": "pi-trig", "tags": ["C01:rhs-mismatch:trig-of-unevaluated-sum-with-pi"]}
     for i in range(n):
         k = seed * 100003 + i
-        yield {"mseed": k, "opts": {"force": list(mg.feature_cycle(k))}, "npts": 5 if tier == "quick" else 8, "tags": ["C01"]}
+        yield {"mseed": k, "opts": {"force": list(mg.feature_cycle(k)), "deriv_ref": 0.2}, "npts": 5 if tier == "quick" else 8, "tags": ["C01"]}
 
 
 def check(case):
     res = cm.new_result()
     if case.get("probe"):
-        for e in PROBES:
-            sub = check({"ode": f"parameters(a=2.0)\nstates(x=1.5, y=2.0)\ndx_dt = {e}\ndy_dt = a - y\n", "npts": 3})
+        for e in (PI_TRIG_PROBES if case["probe"] == "pi-trig" else PROBES):
+            sub = check({"ode": f"parameters(a=2.0)\nstates(x=1.5, y=2.0)\nw0 = 0.5*x\ndx_dt = {e}\ndy_dt = a - y\n", "npts": 4})
             for k in ("failures", "errors", "nontrivial"):
                 res[k] += sub[k]
             res["evals"] += sub["evals"]
@@ -120,10 +132,11 @@ def check(case):
         bad = {}
         for n in ref.state_names:
             g = got[mod["state_index"](n)]
-            if not cm.close(g, want[n], 1e-9, 1e-13 * scale + 1e-300):
+            if not cm.vclose(g, want[n], scale):
                 bad[n] = float(g)
         if bad:
-            kind = cm.main_feature(text, ["d" + k + "_dt" for k in bad])
+            # a model with pi inside a trigonometric argument is in the territory of the known sympy problem (never a general model)
+            kind = "trig-of-unevaluated-sum-with-pi" if ref.has_pi_in_trig() else cm.main_feature(text, ["d" + k + "_dt" for k in bad])
             n0 = sorted(bad)[0]
             add(f"C01:rhs-mismatch:{kind}", f"rhs value of d{n0}_dt differs from the reference meaning of `{ref.assigns['d' + n0 + '_dt'].expr_text[:80]}`", inp,
                 {k: want[k] for k in bad}, bad, f"generated line(s): {gen_lines(code, ['d' + k + '_dt' for k in bad])}", base="C01:rhs-mismatch")
